@@ -333,7 +333,13 @@ def run_case(case, ctx):
             else:
                 runs.append(1)
             prev = cv
-        _, _, viols, dom = MON["chunk_events_by_key"].judge((events, key))
+        res, _, viols, dom = MON["chunk_events_by_key"].judge((events, key))
+        if not viols and dom and res and len(events) % 3 == 0:
+            # the same function applied to its own output: the chunks (events that carry a 'subevents' list) are just events
+            # with a key, and chunking them must conserve them like any others
+            _, _, v2, dom2 = MON["chunk_events_by_key"].judge((res, key))
+            viols = [(f"chunks-of-chunks:{k}", d) for k, d in v2]
+            ctx.count("chunked_twice")
         contiguous = all(iv(a)[1] == iv(b)[0] for a, b in zip(events, events[1:]))
         sig = ("chunk", tuple(min(r, 3) for r in runs[:5]), contiguous)
         nontriv = any(r >= 2 for r in runs)
